@@ -98,7 +98,11 @@ Active(fr) == \A i \in 1..Len(fr.conds) : fr.conds[i].act
 
 Advance(st, fr) == [st EXCEPT !.frames = SetTop(st.frames, [fr EXCEPT !.pc = fr.pc + 1])]
 
-Step(files, idirs, st) ==
+\* StepT is the transition function with the two "oracle" inputs made explicit, so that the
+\* trace specification can take them from recorded events instead of computing them:
+\*   tv  : [v, err]               truth of the current #if/#elif expression (used only if evaluated)
+\*   inc : [bad, form, name, f]   what the current #include names and the file it resolves to
+StepT(files, st, tv, inc) ==
   IF st.frames = <<>> THEN
       IF st.todo = <<>> THEN [st EXCEPT !.done = TRUE]
       ELSE [st EXCEPT !.frames = <<[file |-> Head(st.todo), pc |-> 1, conds |-> <<>>]>>,
@@ -117,10 +121,10 @@ Step(files, idirs, st) ==
       mark(s) == [s EXCEPT !.attr = s.attr \cup {id}]
       next(s) == Advance(s, fr)
   IN
-  CASE it.k = "code" -> next(IF act THEN mark(st) ELSE st)
+  CASE it.k \in {"code", "unknown", "other"} -> next(IF act THEN mark(st) ELSE st)
     [] it.k = "if" ->
          IF act
-         THEN LET t == Truth(it.c, st.defs) IN
+         THEN LET t == tv IN
               [mark(st) EXCEPT !.evald = st.evald \cup {id}, !.err = st.err \/ t.err,
                    !.frames = SetTop(st.frames, [fr EXCEPT !.pc = fr.pc + 1,
                         !.conds = Append(fr.conds, [en |-> TRUE, taken |-> t.v, act |-> t.v])])]
@@ -134,7 +138,7 @@ Step(files, idirs, st) ==
               THEN \* a branch was already selected: the expression is NOT evaluated
                    [mark(st) EXCEPT !.frames = SetTop(st.frames, [fr EXCEPT !.pc = fr.pc + 1,
                         !.conds = SetTop(fr.conds, [c EXCEPT !.act = FALSE])])]
-              ELSE LET t == Truth(it.c, st.defs) IN
+              ELSE LET t == tv IN
                    [mark(st) EXCEPT !.evald = st.evald \cup {id}, !.err = st.err \/ t.err,
                         !.frames = SetTop(st.frames, [fr EXCEPT !.pc = fr.pc + 1,
                         !.conds = SetTop(fr.conds, [c EXCEPT !.act = t.v, !.taken = t.v])])]
@@ -159,23 +163,44 @@ Step(files, idirs, st) ==
          ELSE next([mark(st) EXCEPT !.defs = [st.defs EXCEPT ![it.m] = "U"]])
     [] it.k = "once" ->
          IF ~act THEN next(st) ELSE next([mark(st) EXCEPT !.once = st.once \cup {fr.file}])
-    [] it.k = "unknown" -> next(IF act THEN mark(st) ELSE st)
     [] it.k \in {"include", "includem"} ->
          IF ~act THEN next(st)
          ELSE
-         LET mv   == IF it.k = "includem" THEN st.defs[it.m] ELSE ""
-             bad  == it.k = "includem" /\ ~(Len(mv) > 2 /\ SubSeq(mv, 1, 2) \in {"q:", "a:"})
-             form == IF it.k = "include" THEN it.form ELSE IF bad THEN "q" ELSE SubSeq(mv, 1, 1)
-             name == IF it.k = "include" THEN it.name ELSE IF bad THEN "" ELSE SubSeq(mv, 3, Len(mv))
-             f    == IF bad THEN None ELSE Resolve(files, form, name, F.dir, idirs)
-             s1   == next(mark(st))
-         IN
-         IF bad THEN [s1 EXCEPT !.err = TRUE]
-         ELSE IF f = None
-              THEN [s1 EXCEPT !.warns = Append(st.warns, [file |-> fr.file, idx |-> fr.pc, name |-> name, form |-> form])]
-         ELSE IF f \in st.once THEN s1
+         LET s1 == next(mark(st)) IN
+         IF inc.bad THEN [s1 EXCEPT !.err = TRUE]
+         ELSE IF inc.f = None
+              THEN [s1 EXCEPT !.warns = Append(st.warns, [file |-> fr.file, idx |-> fr.pc, name |-> inc.name, form |-> inc.form])]
+         ELSE IF inc.f \in st.once THEN s1
          ELSE IF Len(st.frames) >= MaxDepth THEN [s1 EXCEPT !.err = TRUE]
-         ELSE [s1 EXCEPT !.frames = Append(s1.frames, [file |-> f, pc |-> 1, conds |-> <<>>])]
+         ELSE [s1 EXCEPT !.frames = Append(s1.frames, [file |-> inc.f, pc |-> 1, conds |-> <<>>])]
+
+\* the current item, or a dummy when the machine is between files
+CurItem(files, st) ==
+  IF st.frames = <<>> THEN [k |-> "none"]
+  ELSE LET fr == Top(st.frames) IN
+       IF fr.pc > Len(files[fr.file].items) THEN [k |-> "none"] ELSE files[fr.file].items[fr.pc]
+
+NoTruth == [v |-> FALSE, err |-> FALSE]
+NoInc == [bad |-> FALSE, form |-> "q", name |-> "", f |-> None]
+
+\* reference oracle for the truth of the current condition
+TruthCur(files, st) ==
+  LET it == CurItem(files, st) IN
+  IF it.k \in {"if", "elif"} THEN Truth(it.c, st.defs) ELSE NoTruth
+
+\* reference oracle for the current include directive
+IncCur(files, idirs, st) ==
+  LET it == CurItem(files, st) IN
+  IF it.k \notin {"include", "includem"} THEN NoInc
+  ELSE
+  LET mv   == IF it.k = "includem" THEN st.defs[it.m] ELSE ""
+      bad  == it.k = "includem" /\ ~(Len(mv) > 2 /\ SubSeq(mv, 1, 2) \in {"q:", "a:"})
+      form == IF it.k = "include" THEN it.form ELSE IF bad THEN "q" ELSE SubSeq(mv, 1, 1)
+      name == IF it.k = "include" THEN it.name ELSE IF bad THEN "" ELSE SubSeq(mv, 3, Len(mv))
+      f    == IF bad THEN None ELSE Resolve(files, form, name, files[Top(st.frames).file].dir, idirs)
+  IN [bad |-> bad, form |-> form, name |-> name, f |-> f]
+
+Step(files, idirs, st) == StepT(files, st, TruthCur(files, st), IncCur(files, idirs, st))
 
 RECURSIVE RunFrom(_, _, _, _)
 RunFrom(files, idirs, st, fuel) ==
